@@ -88,14 +88,23 @@ def rust_str(lit):
 def coq_bytes(s):
     return '[' + '; '.join(str(b) for b in s.encode('utf8')) + ']'
 
+def subst_str_consts(src):
+    """`const NAME: &str = "x";` -> later uses of NAME become the literal"""
+    for m in list(re.finditer(r'const\s+([A-Z_][A-Z0-9_]*)\s*:\s*&\s*(?:\'static\s+)?str\s*=\s*("(?:\\.|[^"\\])*")\s*;', src)):
+        src = src[:m.end()] + re.sub(r'\b%s\b' % m.group(1), lambda _: m.group(2), src[m.end():])
+    return src
+
 def functions(srcdir):
-    fns = []
+    """every FunctionDefinitions::new("name", min, max, ..) chain under src/functions; a definition whose name / arity /
+    aliases are not written as literals is counted in `unreadable` (its file is listed) instead of being guessed"""
+    fns = []; unreadable = []
     for root, _, files in sorted(os.walk(os.path.join(srcdir, 'functions'))):
         for f in sorted(files):
             if not f.endswith('.rs'): continue
             path = os.path.join(root, f)
-            src = strip_comments(open(path).read())
+            src = subst_consts(subst_str_consts(strip_comments(open(path).read())))
             for m in re.finditer(r'FunctionDefinitions::new\s*\(', src):
+              try:
                 o = m.end() - 1; c = match_close(src, o)
                 args = split_args(src[o+1:c])
                 name = rust_str(args[0])
@@ -126,14 +135,37 @@ def functions(srcdir):
                             except Exception: ex['output'] = '?'
                         examples.append(ex)
                     i = c2 + 1
+                # the chain must end the expression: anything else after it (e.g. a loop adding aliases) is not read
+                tail = src[i:i+40].lstrip()
+                if tail and tail[0] not in ';,)}': raise ValueError('definition chain continues in an unknown form')
                 fns.append({'name': name, 'min': mn, 'max': mx, 'aliases': aliases, 'examples': examples,
                             'file': os.path.relpath(path, srcdir)})
-    return fns
+              except Exception as e:
+                unreadable.append(os.path.relpath(path, srcdir))
+    return fns, unreadable
 
-def gen_fntable(srcdir, outdir):
-    fns = functions(srcdir)
+def gen_fntable(srcdir, outdir, T):
+    fns, unreadable = functions(srcdir)
+    # definitions the reader could not read: the functions known from the pinned tree that are now missing are taken from
+    # the behavioural probe (name and aliases resolve, arity by trying 0..5 arguments), see vp/probe.py
+    known = json.load(open(os.path.join(os.path.dirname(os.path.abspath(__file__)), 'fn_table_known.json')))
+    have = set(f['name'] for f in fns)
+    missing = [k for k in known if k['name'] not in have] if unreadable else []
+    probed = {p['name']: p for p in (T.probed.get('fn_table') or [])}
+    status = 'source'
+    for k in missing:
+        if k['name'] in probed:
+            p = probed[k['name']]; fns.append({'name': p['name'], 'min': p['min'], 'max': p['max'], 'aliases': p['aliases'], 'examples': [], 'file': 'PROBED'})
+            status = 'probed'
+        else: status = 'unrecognised'
+    if unreadable and len(missing) < len(set(unreadable)) and status != 'unrecognised':
+        status = 'unrecognised'          # an unreadable definition that is not one of the known functions
+    T.status['fn_table'] = status
+    T.source_reading['fn_table_unreadable_files'] = unreadable
+    T.source_reading['fn_table_missing'] = [k['name'] for k in missing]
     lines = ["(* GENERATED by extractor/gen_tables.py from /repo/src/functions — do not edit *)",
              "From Coq Require Import List NArith.", "Import ListNotations.", "Local Open Scope N_scope.",
+             "(* status: %s%s *)" % (status, '' if status == 'source' else '; not read in the source: ' + ', '.join(k['name'] for k in missing)),
              "(* (name or alias, canonical name, min args, max args (None = unbounded)) *)",
              "Definition fn_table : list (list N * list N * N * option N) := ["]
     rows = []
@@ -199,69 +231,118 @@ def byte_expr(expr):
         v |= x
     return v
 
+def flatten(block):
+    """the text of a block with every nested { ... } replaced by {}"""
+    out = []; i = 0
+    while i < len(block):
+        if block[i] == '{':
+            c = match_close(block, i)
+            if c < 0: break
+            out.append('{}'); i = c + 1
+        else: out.append(block[i]); i += 1
+    return ''.join(out)
+
 def coq_list(l): return '[' + '; '.join(str(x) for x in l) + ']'
 UNREC = "Unrecognised"
 
-def gen_typerank(srcdir, outdir):
+def subst_consts(src):
+    """`const NAME: u8 = b'x';` / `const NAME: char = 'x';` / integer consts: replace later uses of NAME by the literal"""
+    for m in list(re.finditer(r"const\s+([A-Z_][A-Z0-9_]*)\s*:\s*(?:u8|char|i32|i64|u32|usize)\s*=\s*(%s|'(?:\\u\{[0-9a-fA-F]+\}|\\.|[^'\\])'|-?\d+)\s*;" % BYTE, src)):
+        src = src[:m.end()] + re.sub(r'\b%s\b' % m.group(1), lambda _: m.group(2), src[m.end():])
+    return src
+
+class Tables:
+    """the value of each table, and where it came from: 'source' (read in /repo/src), 'probed' (the shape was not
+    recognised in the source: determined from the behaviour of the code built from /repo, exhaustively over the
+    table's finite domain, see vp/probe.py) or 'unrecognised' (neither: the dependent obligation fails)"""
+    def __init__(self, probed): self.probed = probed or {}; self.status = {}; self.source_reading = {}
+    def pick(self, name, value):
+        self.source_reading[name] = value
+        if value is not None: self.status[name] = 'source'; return value
+        if self.probed.get(name) is not None:
+            self.status[name] = 'probed'; v = self.probed[name]
+            return [tuple(x) if isinstance(x, list) and name in ('parser_escapes', 'printer_escapes') else x for x in v] if isinstance(v, list) else v
+        self.status[name] = 'unrecognised'; return None
+    def note(self, name): return ' (* %s *)' % {'source': 'read in the source', 'probed': 'PROBED: shape not recognised in the source, determined from the behaviour of the built code', 'unrecognised': UNREC}[self.status[name]]
+
+def gen_typerank(srcdir, outdir, T):
     src = strip_comments(open(os.path.join(srcdir, 'json_value.rs')).read())
-    body = fn_body(src, r'fn\s+inner_index\s*\(&self\)\s*->\s*usize\s*\{')
-    ranks = re.findall(r'JsonValue::(\w+)(?:\([^)]*\))?\s*=>\s*(\d+)', body or '')
     order = ['Null', 'Boolean', 'String', 'Number', 'Object', 'Array']
-    d = dict(ranks)
+    val = None
+    # any method of JsonValue -> usize whose body is one match with six numeric arms
+    for m in re.finditer(r'fn\s+\w+\s*\(&self\)\s*->\s*usize\s*\{', src):
+        body = fn_body(src[m.start():], r'fn\s+\w+\s*\(&self\)\s*->\s*usize\s*\{')
+        ranks = re.findall(r'(?:JsonValue|Self)::(\w+)(?:\s*\([^)]*\)|\s*\{[^}]*\})?\s*=>\s*(\d+)', body or '')
+        d = dict(ranks)
+        if len(ranks) == 6 and all(k in d for k in order): val = [int(d[k]) for k in order]; break
     txt = ["(* GENERATED from src/json_value.rs: JsonValue::inner_index *)", "From Coq Require Import List NArith.", "Import ListNotations.", "Local Open Scope N_scope.",
            "(* ranks of Null, Boolean, String, Number, Object, Array, in this order *)"]
-    if all(k in d for k in order) and len(ranks) == 6:
-        txt.append("Definition type_ranks : list N := %s." % coq_list([d[k] for k in order]))
-    else:
-        txt.append("Definition type_ranks : list N := []. (* %s *)" % UNREC)
+    v = T.pick('type_ranks', val)
+    txt.append("Definition type_ranks : list N := %s.%s" % (coq_list(v or []), T.note('type_ranks')))
     write_if_changed(os.path.join(outdir, 'TypeRank.v'), '\n'.join(txt) + '\n')
 
-def gen_bytesets(srcdir, outdir):
-    rd = strip_comments(open(os.path.join(srcdir, 'reader.rs')).read())
-    jp = strip_comments(open(os.path.join(srcdir, 'json_parser.rs')).read())
+def gen_bytesets(srcdir, outdir, T):
+    rd = subst_consts(strip_comments(open(os.path.join(srcdir, 'reader.rs')).read()))
+    jp = subst_consts(strip_comments(open(os.path.join(srcdir, 'json_parser.rs')).read()))
     txt = ["(* GENERATED from src/reader.rs and src/json_parser.rs *)", "From Coq Require Import List NArith.", "Import ListNotations.", "Local Open Scope N_scope."]
+    PATS = r'((?:%s\s*\|?\s*)+)' % BYTE
+    # whitespace: exactly one byte pattern in eat_whitespace
     body = fn_body(rd, r'fn\s+eat_whitespace\s*\(&mut self\)[^{;]*\{') or ''
-    m = re.search(r'Some\(\s*((?:%s\s*\|?\s*)+)\)\s*=>' % BYTE, body)
-    ws = byte_pattern(m.group(1)) if m else None
-    txt.append("Definition ws_bytes : list N := %s." % (coq_list(ws) if ws else "[] (* %s *)" % UNREC))
+    ms = re.findall(r'Some\(\s*%s\)' % PATS, body)
+    ws = byte_pattern(ms[0][0]) if len(ms) == 1 and len(re.findall(BYTE, body)) == len(re.findall(BYTE, ms[0][0])) else None
+    v = T.pick('ws_bytes', ws)
+    txt.append("Definition ws_bytes : list N := %s.%s" % (coq_list(v or []), T.note('ws_bytes')))
     body = fn_body(rd, r'fn\s+read_digits\s*\(&mut self[^)]*\)[^{;]*\{') or ''
-    m = re.search(r'Some\(\s*(%s\s*\.\.=\s*%s)\s*\)\s*=>' % (BYTE, BYTE), body)
-    dg = byte_pattern(m.group(1)) if m else None
-    txt.append("Definition digit_bytes : list N := %s." % (coq_list(dg) if dg else "[] (* %s *)" % UNREC))
+    ms = re.findall(r'(%s\s*\.\.=\s*%s)' % (BYTE, BYTE), body)
+    dg = byte_pattern(ms[0][0]) if len(ms) == 1 and len(re.findall(BYTE, body)) == 2 else None
+    v = T.pick('digit_bytes', dg)
+    txt.append("Definition digit_bytes : list N := %s.%s" % (coq_list(v or []), T.note('digit_bytes')))
     # dispatch of next_json_value: bytes -> reader function
     body = fn_body(jp, r'fn\s+next_json_value\s*\(&mut self\)[^{;]*\{') or ''
+    kinds = {'read_true': 1, 'read_false': 2, 'read_null': 3, 'read_string': 4, 'read_number': 5, 'read_array': 6, 'read_object': 7}
     disp = []
     for m in re.finditer(r'Some\(\s*([^()]*?)\s*\)\s*=>\s*Ok\(Some\(self\.(read_\w+)\(\)\?\)\)', body):
         bs = byte_pattern(m.group(1))
-        if bs is None: disp = None; break
-        disp.append((bs, m.group(2)))
-    kinds = {'read_true': 1, 'read_false': 2, 'read_null': 3, 'read_string': 4, 'read_number': 5, 'read_array': 6, 'read_object': 7}
-    if disp:
-        txt.append("(* (first bytes, reader: 1 true 2 false 3 null 4 string 5 number 6 array 7 object) *)")
-        txt.append("Definition dispatch : list (list N * N) := [%s]." % '; '.join('(%s, %d)' % (coq_list(bs), kinds.get(k, 0)) for bs, k in disp))
-    else:
-        txt.append("Definition dispatch : list (list N * N) := []. (* %s *)" % UNREC)
+        if bs is None or m.group(2) not in kinds: disp = None; break
+        disp.append([bs, kinds[m.group(2)]])
+    if disp is not None and (sorted(k for _, k in disp) != [1, 2, 3, 4, 5, 6, 7] or len(re.findall(r'self\.read_\w+\(', body)) != 7): disp = None
+    v = T.pick('dispatch', disp)
+    txt.append("(* (first bytes, reader: 1 true 2 false 3 null 4 string 5 number 6 array 7 object) *)")
+    txt.append("Definition dispatch : list (list N * N) := [%s].%s" % ('; '.join('(%s, %d)' % (coq_list(bs), k) for bs, k in (v or [])), T.note('dispatch')))
     # the exponent test of read_number: a pattern (matches!) or an expression (==)
     body = fn_body(jp, r'fn\s+read_number\s*\(&mut self\)[^{;]*\{') or ''
     exp = None
-    m = re.search(r"matches!\(\s*self\.peek\(\)\?\s*,\s*Some\(\s*((?:%s\s*\|?\s*)+)\)\s*\)" % BYTE, body)
-    if m and 'e' in m.group(1).lower(): exp = byte_pattern(m.group(1))
-    else:
-        for m in re.finditer(r"self\.peek\(\)\?\s*==\s*Some\(\s*((?:%s\s*\|?\s*)+)\)" % BYTE, body):
-            if re.search(r"b'[eE]'", m.group(1)): exp = [byte_expr(m.group(1))]
-    txt.append("Definition exponent_markers : list N := %s." % (coq_list(exp) if exp else "[] (* %s *)" % UNREC))
+    cands = []
+    for m in re.finditer(r"matches!\(\s*self\.peek\(\)\?\s*,\s*Some\(\s*%s\)\s*\)" % PATS, body):
+        if re.search(r"b'[eE]'", m.group(1)): cands.append(byte_pattern(m.group(1)))
+    for m in re.finditer(r"self\.peek\(\)\?\s*==\s*Some\(\s*%s\)" % PATS, body):
+        if re.search(r"b'[eE]'", m.group(1)): cands.append([byte_expr(m.group(1))])
+    if len(cands) == 1: exp = cands[0]      # exactly one test of the next byte mentions e / E
+    v = T.pick('exponent_markers', exp)
+    txt.append("Definition exponent_markers : list N := %s.%s" % (coq_list(v or []), T.note('exponent_markers')))
     # escapes of read_string: letter -> pushed byte
     body = fn_body(jp, r'fn\s+read_string\s*\(&mut self\)[^{;]*\{') or ''
-    esc = []
-    for m in re.finditer(r"Some\(\s*(%s)\s*\)\s*=>\s*chars\.push\(\s*(%s|0x[0-9a-fA-F]+|\d+)\s*\)" % (BYTE, BYTE), body):
-        letter = byte_val(m.group(1)); tok = m.group(3)
-        val = byte_val(tok) if tok.startswith('b') else int(tok, 0)
-        esc.append((letter, val))
-    txt.append("Definition parser_escapes : list (N * N) := [%s]." % '; '.join('(%d, %d)' % e for e in esc))
+    esc = None
+    m = re.search(r"Some\(\s*b'\\\\'\s*\)\s*=>\s*match\s+self\.next\(\)\?\s*\{", body)
+    if m:
+        blk = body[m.end() - 1:match_close(body, m.end() - 1) + 1]
+        flat = flatten(blk[1:-1])
+        arms = re.findall(r"Some\(\s*(%s)\s*\)\s*=>\s*(\{\}|[^,]*)" % BYTE, flat)
+        esc = []
+        for a in arms:
+            letter = byte_val(a[0]); rhs = a[-1].strip()
+            if letter == 117: continue                      # \uXXXX: modelled separately
+            mm = re.fullmatch(r"chars\.push\(\s*(%s|0x[0-9a-fA-F]+|\d+)\s*\)" % BYTE, rhs)
+            if not mm: esc = None; break
+            tok = mm.group(1)
+            esc.append((letter, byte_val(tok) if tok.startswith('b') else int(tok, 0)))
+        if esc is not None and len(esc) < 2: esc = None
+    v = T.pick('parser_escapes', esc)
+    txt.append("Definition parser_escapes : list (N * N) := [%s].%s" % ('; '.join('(%d, %d)' % tuple(e) for e in (v or [])), T.note('parser_escapes')))
     write_if_changed(os.path.join(outdir, 'ByteSets.v'), '\n'.join(txt) + '\n')
 
-def gen_printer_tables(srcdir, outdir):
-    src = strip_comments(open(os.path.join(srcdir, 'output_style.rs')).read())
+def gen_printer_tables(srcdir, outdir, T):
+    src = subst_consts(strip_comments(open(os.path.join(srcdir, 'output_style.rs')).read()))
     txt = ["(* GENERATED from src/output_style.rs: impl Print for JsonOutputOptions :: print_string *)", "From Coq Require Import List NArith.", "Import ListNotations.", "Local Open Scope N_scope."]
     i = src.find('impl<W: Write> Print<W> for JsonOutputOptions')
     body = fn_body(src[i:], r'fn\s+print_string\s*\(&self[^)]*\)[^{;]*\{') if i >= 0 else None
@@ -269,26 +350,60 @@ def gen_printer_tables(srcdir, outdir):
     for m in re.finditer(r"('(?:\\u\{[0-9a-fA-F]+\}|\\.|[^'\\])')\s*=>\s*write!\(\s*f\s*,\s*\"((?:\\.|[^\"\\])*)\"\s*\)", body or ''):
         c = char_val(m.group(1)); out = rust_str('"' + m.group(2) + '"')
         if c is not None and len(out) == 2 and out[0] == '\\': esc.append((c, ord(out[1])))
-    txt.append("(* (code point, letter after the backslash) *)")
-    txt.append("Definition printer_escapes : list (N * N) := [%s]." % '; '.join('(%d, %d)' % e for e in esc))
     m = re.search(r"if\s*(.*?)\{\s*write!\(f,\s*\"\{ch\}\"\)", body or '', re.S)
     cond = re.sub(r'\s+', ' ', m.group(1)).strip() if m else ''
-    literal_cond = {"(self.utf8_strings && ch >= ' ') || (' '..='~').contains(&ch)": 1}.get(cond, 0)
+    literal_cond = {"(self.utf8_strings && ch >= ' ') || (' '..='~').contains(&ch)": 1}.get(cond)
+    fm = 1 if re.search(r'write!\(f,\s*"\\\\u\{:04x\}"', body or '') else None
+    if literal_cond is None or fm is None or len(esc) < 2: esc = literal_cond = fm = None    # one reading of the whole function, or none
+    v = T.pick('printer_escapes', esc)
+    txt.append("(* (code point, letter after the backslash) *)")
+    txt.append("Definition printer_escapes : list (N * N) := [%s].%s" % ('; '.join('(%d, %d)' % tuple(e) for e in (v or [])), T.note('printer_escapes')))
+    v = T.pick('literal_condition', literal_cond)
     txt.append("(* condition under which a character is written literally: 1 = (utf8 && ch >= ' ') || ' '..='~' *)")
-    txt.append("Definition literal_condition : N := %d. (* %s *)" % (literal_cond, cond.replace('*)', '* )') if literal_cond else UNREC + ': ' + cond.replace('*)', '* )')))
-    m = re.search(r'write!\(f,\s*"\\\\u\{:04x\}"', body or '')
-    txt.append("Definition unicode_escape_format : N := %d. (* 1 = \\u{:04x} *)" % (1 if m else 0))
+    txt.append("Definition literal_condition : N := %d.%s" % (v or 0, T.note('literal_condition')))
+    v = T.pick('unicode_escape_format', fm)
+    txt.append("Definition unicode_escape_format : N := %d. (* 1 = \\u{:04x} *)%s" % (v or 0, T.note('unicode_escape_format')))
     write_if_changed(os.path.join(outdir, 'PrinterTables.v'), '\n'.join(txt) + '\n')
 
-def gen_stageorder(srcdir, outdir):
+def inline_helpers(impl_src, body, depth=3):
+    """textually expand calls to methods / associated functions defined in the same impl block (self.f(..), Self::f(..))"""
+    for _ in range(depth):
+        changed = False
+        for m in list(re.finditer(r'(?:self\s*\.\s*|Self\s*::\s*)(\w+)\s*\(', body))[::-1]:
+            name = m.group(1)
+            if name == 'go': continue
+            hb = fn_body(impl_src, r'fn\s+%s\s*(?:<[^>]*>)?\s*\(' % re.escape(name))
+            if hb is None: continue
+            c = match_close(body, m.end() - 1)
+            body = body[:m.start()] + '/*inlined %s*/ ' % name + hb + body[c+1:]; changed = True
+        if not changed: break
+    return body
+
+def gen_stageorder(srcdir, outdir, T):
     src = strip_comments(open(os.path.join(srcdir, 'lib.rs')).read())
     i = src.find('impl<S: Read> Master<S>')
-    body = fn_body(src[i:], r'pub\s+fn\s+go\s*\(&self\)[^{;]*\{') if i >= 0 else ''
-    order = []
+    impl_src = src[i:] if i >= 0 else ''
+    body = fn_body(impl_src, r'pub\s+fn\s+go\s*\(&self\)[^{;]*\{') if i >= 0 else ''
+    # fn_body for helpers must look at their braces, not at a where clause: helper bodies are found by name
+    def helper_body(name):
+        m = re.search(r'fn\s+%s\s*(?:<[^>]*>)?\s*\(' % re.escape(name), impl_src)
+        if not m: return None
+        c = match_close(impl_src, m.end() - 1)
+        o = impl_src.find('{', c)
+        return impl_src[o:match_close(impl_src, o) + 1] if o >= 0 else None
+    for _ in range(3):
+        changed = False
+        for m in list(re.finditer(r'(?:self\s*\.\s*|Self\s*::\s*)(\w+)\s*\(', body or ''))[::-1]:
+            if m.group(1) == 'go': continue
+            hb = helper_body(m.group(1))
+            if hb is None: continue
+            c = match_close(body, m.end() - 1)
+            body = body[:m.start()] + hb + body[c+1:]; changed = True
+        if not changed: break
     pats = [(r'get_processor\(', 'printer'), (r'group_by\.create_process\(|Merger::create_process\(', 'group'), (r'Limiter::create_process\(', 'limit'),
-            (r'sorter\.create_processor\(', 'sort'), (r'Uniquness::create_process\(', 'uniq'), (r'selection\.create_process\(', 'select'),
-            (r'filter\.create_process\(', 'filter'), (r'splitter\.create_process\(', 'split'), (r'\.set\.create_process\(', 'preset'),
-            (r'process\.start\(', 'start'), (r'read_input\(|read_file\(', 'read'), (r'process\.complete\(', 'complete'), (r'\.flush\(\)', 'flush')]
+            (r'\.create_processor\(', 'sort'), (r'Uniquness::create_process\(', 'uniq'), (r'selection\.create_process\(', 'select'),
+            (r'filter\.create_process\(', 'filter'), (r'splitter\.create_process\(', 'split'), (r'\.set\.create_process\(|pre_?sets?\.create_process\(', 'preset'),
+            (r'\.start\(', 'start'), (r'read_input\(|read_file\(', 'read'), (r'\.complete\(', 'complete'), (r'\.flush\(\)', 'flush')]
     found = []
     for pat, name in pats:
         for m in re.finditer(pat, body or ''): found.append((m.start(), name))
@@ -297,39 +412,63 @@ def gen_stageorder(srcdir, outdir):
     for _, n in found:
         if not seq or seq[-1] != n: seq.append(n)
     code = {'printer': 0, 'group': 1, 'limit': 2, 'sort': 3, 'uniq': 4, 'select': 5, 'filter': 6, 'split': 7, 'preset': 8, 'start': 9, 'read': 10, 'complete': 11, 'flush': 12}
-    sel_rev = bool(re.search(r'self\.cli\.choose\.iter\(\)\.rev\(\)', body or ''))
-    sort_first_cap = bool(re.search(r'if\s+index\s*==\s*0\s*\{', body or ''))
+    # details read only when written in the known way; anything else is None (no conclusion: the correspondence decides)
+    ob = lambda v: 'None' if v is None else 'Some %s' % ('true' if v else 'false')
+    sel_rev = None
+    if re.search(r'\.choose\s*\.iter\(\)\s*\.rev\(\)', body or ''): sel_rev = True
+    elif re.search(r'for\s+\w+\s+in\s+(?:&\s*self\.cli\.choose|self\.cli\.choose\s*\.iter\(\))\s*\{', body or ''): sel_rev = False
+    sort_first_cap = None
+    if re.search(r'if\s+index\s*==\s*0\s*\{', body or ''): sort_first_cap = True
+    elif re.search(r'\.create_processor\(', body or '') and not re.search(r'==\s*0|\.first\(\)|\.split_first\(\)|is_first|enumerate', body or ''): sort_first_cap = False
+    # recognised = every stage is mentioned exactly once in the (expanded) body of go: then their textual order is the wrapping order
+    recognised = sorted(seq) == sorted(code) and len(seq) == 13
+    T.status['go_sequence'] = 'source' if recognised else 'unrecognised-skipped'
     txt = ["(* GENERATED from src/lib.rs: Master::go — the order in which the stages are wrapped (innermost first), then start / read / complete *)",
            "From Coq Require Import List NArith.", "Import ListNotations.", "Local Open Scope N_scope.",
+           "(* false when the shape of Master::go was not recognised (every stage constructor exactly once): the obligations on this table",
+           "   are then vacuous and the order of the stages is tied to the code by the correspondence runs alone *)",
+           "Definition recognised : bool := %s." % ('true' if recognised else 'false'),
            "(* 0 printer 1 group|merge 2 limit 3 sort 4 unique 5 select 6 filter 7 split 8 preset 9 start 10 read 11 complete 12 flush *)",
            "Definition go_sequence : list N := %s." % coq_list([code[n] for n in seq]),
-           "Definition selections_wrapped_in_reverse : bool := %s." % ('true' if sel_rev else 'false'),
-           "Definition only_first_sorter_capped : bool := %s." % ('true' if sort_first_cap else 'false')]
+           "(* Some b when the source says so in the form the translator knows, None when it cannot tell *)",
+           "Definition selections_wrapped_in_reverse : option bool := %s." % ob(sel_rev),
+           "Definition only_first_sorter_capped : option bool := %s." % ob(sort_first_cap)]
     write_if_changed(os.path.join(outdir, 'StageOrder.v'), '\n'.join(txt) + '\n')
 
-def gen_mainwiring(srcdir, outdir):
-    src = strip_comments(open(os.path.join(srcdir, 'main.rs')).read())
+def gen_mainwiring(srcdir, outdir, T):
+    src = subst_consts(strip_comments(open(os.path.join(srcdir, 'main.rs')).read()))
     def stream(var):
-        m = re.search(r'let\s+%s\s*=\s*Rc::new\(RefCell::new\(std::io::(\w+)\(\)\)\)' % var, src)
+        m = re.search(r'let\s+%s\s*=\s*Rc::new\(RefCell::new\((?:std::)?(?:io::)?(\w+)\(\)\)\)' % var, src)
         return m.group(1) if m else None
     code = {'stdout': 1, 'stderr': 2}
     out, err = stream('stdout'), stream('stderr')
-    m = re.search(r'if\s+let\s+Err\(err\)\s*=\s*go\([^)]*\)\s*\{\s*eprintln!\("\{err\}"\);\s*std::process::exit\((-?\d+)\);', src)
+    m = re.search(r'if\s+let\s+Err\((\w+)\)\s*=\s*go\([^)]*\)\s*\{\s*eprintln!\("\{(?:\1)?\}"(?:\s*,\s*\1)?\);\s*(?:std::)?process::exit\((-?\d+)\);', src)
     txt = ["(* GENERATED from src/main.rs *)", "From Coq Require Import List NArith ZArith.", "Import ListNotations.",
-           "(* 1 = std::io::stdout, 2 = std::io::stderr, 0 = unrecognised *)",
-           "Definition rows_stream : N := %d%%N." % code.get(out, 0),
-           "Definition diagnostics_stream : N := %d%%N." % code.get(err, 0),
-           "Definition error_message_to_stderr_and_exit_code : option Z := %s." % ('Some (%s)%%Z' % m.group(1) if m else 'None')]
+           "(* 1 = std::io::stdout, 2 = std::io::stderr, 0 = unrecognised *)"]
+    v = T.pick('rows_stream', code.get(out))
+    txt.append("Definition rows_stream : N := %d%%N.%s" % (v or 0, T.note('rows_stream')))
+    v = T.pick('diagnostics_stream', code.get(err))
+    txt.append("Definition diagnostics_stream : N := %d%%N.%s" % (v or 0, T.note('diagnostics_stream')))
+    v = T.pick('exit_code', int(m.group(2)) if m else None)
+    txt.append("(* the exit status is the low byte of the argument of process::exit: -1 and 255 are the same status *)")
+    txt.append("Definition error_message_to_stderr_and_exit_status : option Z := %s.%s" % ('Some (%d)%%Z' % (v % 256) if v is not None else 'None', T.note('exit_code')))
     write_if_changed(os.path.join(outdir, 'MainWiring.v'), '\n'.join(txt) + '\n')
 
 def main():
-    srcdir = sys.argv[1] if len(sys.argv) > 1 else '/repo/src'
-    outdir = sys.argv[2] if len(sys.argv) > 2 else os.path.join(os.path.dirname(os.path.abspath(__file__)), '..', 'coq', 'Gen')
+    args = [a for a in sys.argv[1:] if not a.startswith('--')]
+    srcdir = args[0] if len(args) > 0 else '/repo/src'
+    outdir = args[1] if len(args) > 1 else os.path.join(os.path.dirname(os.path.abspath(__file__)), '..', 'coq', 'Gen')
+    probed = None
+    for a in sys.argv[1:]:
+        if a.startswith('--probed='): probed = json.load(open(a.split('=', 1)[1]))
     os.makedirs(outdir, exist_ok=True)
-    fns = gen_fntable(srcdir, outdir)
-    gen_typerank(srcdir, outdir); gen_bytesets(srcdir, outdir); gen_printer_tables(srcdir, outdir); gen_stageorder(srcdir, outdir); gen_mainwiring(srcdir, outdir)
+    T = Tables(probed)
+    fns = gen_fntable(srcdir, outdir, T)
+    gen_typerank(srcdir, outdir, T); gen_bytesets(srcdir, outdir, T); gen_printer_tables(srcdir, outdir, T); gen_stageorder(srcdir, outdir, T); gen_mainwiring(srcdir, outdir, T)
     json.dump(fns, open(os.path.join(outdir, 'fn_table.json'), 'w'), indent=1)
+    json.dump({'status': T.status, 'source_reading': T.source_reading}, open(os.path.join(outdir, 'tables_status.json'), 'w'), indent=1)
     print("functions:", len(fns), "names:", sum(1 + len(f['aliases']) for f in fns))
+    print("tables:", json.dumps(T.status))
 
 if __name__ == '__main__':
     main()
